@@ -301,6 +301,7 @@ Print Assumptions c08_violations_nil_iff.
 (* an empty [mism] = the model predicted handshake verdict, dispatch count,
    stamped keys and crash of every recorded run *)
 Theorem c08_mismatches_nil_iff : forall l : list case,
-  mismatches l = [] <-> forall c, In c l -> case_model c = case_observed c.
+  mismatches l = [] <->
+  forall c, In c l -> case_model c = case_observed c /\ case_honest_proof c = true.
 Proof. exact mismatches_nil_iff. Qed.
 Print Assumptions c08_mismatches_nil_iff.
